@@ -511,4 +511,40 @@ def fromGridMpi (mpiSize : Nat) (kind : GridKind) (r0nz : Bool) (shape : List Na
     if mpiSize > 1 ∧ dec.prod ≠ mpiSize then (.nodeCount, some dec)
     else (fromGridOutcome kind r0nz shape dec, some dec)
 
+/-! ## `extract_subfield`: fields and collections
+
+A field is its padded array (`_data_full`, one `Arr` per component).  `extract_subfield(field, id, with_ghost_cells=g)`:
+with `g` the sub-field's padded array is the block of the base padded array (ghost cells = the neighbours' data or the base
+ghost cells); without, only the valid data are cut out of `field.data` and the new field's ghost cells are whatever
+`np.empty` held (`none`).  A collection is split member by member **with the same flag** and re-assembled. -/
+
+def Arr.map {α β : Type} (g : α → β) (a : Arr α) : Arr β := { shape := a.shape, get := fun p => g (a.get p) }
+
+/-- `field.data`: the interior of the padded array -/
+def Arr.interior {α : Type} (a : Arr α) : Arr α :=
+  { shape := a.shape.map (· - 2), get := fun p => a.get (p.map (· + 1)) }
+
+/-- every index at least one -/
+def allPos (p : List Nat) : Bool := p.all (fun i => decide (1 ≤ i))
+
+/-- `cls(grid, data=valid)`: a fresh padded array whose interior is `valid`; ghost cells undefined -/
+def Arr.padUndefined {α : Type} (a : Arr α) : Arr (Option α) :=
+  { shape := a.shape.map (· + 2),
+    get := fun p => if allPos p && inShape (p.map (· - 1)) a.shape then some (a.get (p.map (· - 1))) else none }
+
+namespace Mesh
+/-- padded array of `extract_subfield(field, id, with_ghost_cells=ghost)` (one component) -/
+def subfield {α : Type} (m : Mesh) (ghost : Bool) (full : Arr α) (id : Nat) : Arr (Option α) :=
+  if ghost then (m.extract true full id).map some else (m.extract false full.interior id).padUndefined
+
+/-- a field with several components: the same cut for every component -/
+def subfieldComps {α : Type} (m : Mesh) (ghost : Bool) (comps : List (Arr α)) (id : Nat) : List (Arr (Option α)) :=
+  comps.map (fun c => m.subfield ghost c id)
+
+/-- `extract_subfield(FieldCollection, id, with_ghost_cells=ghost)`: member by member, same flag -/
+def subcollection {α : Type} (m : Mesh) (ghost : Bool) (members : List (List (Arr α))) (id : Nat) :
+    List (List (Arr (Option α))) :=
+  members.map (fun comps => m.subfieldComps ghost comps id)
+end Mesh
+
 end PdeVerif.Mesh
